@@ -357,7 +357,7 @@ func genSimStreamCase(r *u.Rng, maxSize int) simStreamCase {
 	for i := 0; i < nf; i++ {
 		f := fault{Dir: r.Intn(2), Idx: r.Range(0, 25), Kind: r.Intn(fNumKinds)}
 		switch f.Kind {
-		case fDelay:
+		case fDelay, fDupLate:
 			f.Arg = r.Range(1, 300)
 		case fFlip:
 			f.Arg = r.Range(0, 12000)
